@@ -32,7 +32,7 @@ from props import PROPS, COMMON_TRUSTED  # noqa: E402
 ALLOWED_AXIOMS = {
     # axioms declared by the standard library that DESIGN.md section 7 names; none is needed so far
 }
-FORBIDDEN = re.compile(r"\b(Admitted|admit|Axiom|Axioms|Parameter|Parameters|Conjecture|Hypothesis|Variable|Variables|Hypotheses)\b|Unset\s+Guard|bypass_check|type-in-type|impredicative-set|Admit Obligations|Unset\s+Positivity|Unset\s+Universe")
+FORBIDDEN = re.compile(r"\b(Admitted|admit|Axiom|Axioms|Parameter|Parameters|Conjecture|Conjectures|Hypothesis|Variable|Variables|Hypotheses|Context)\b|Unset\s+Guard|bypass_check|type-in-type|impredicative-set|Admit Obligations|Unset\s+Positivity|Unset\s+Universe")
 
 
 def run(cmd, cwd=None, timeout=None, stdin=None, env=None):
@@ -65,16 +65,19 @@ def gate():
             path = os.path.join(root, fn)
             text = open(path, encoding="utf-8", errors="replace").read()
             text_nc = strip_comments(text)
-            in_section = 0
+            sections = []  # names of the open sections (modules are not sections)
             for ln, line in enumerate(text_nc.split("\n"), 1):
-                if re.match(r"\s*Section\b", line):
-                    in_section += 1
-                if re.match(r"\s*End\b", line) and in_section:
-                    in_section -= 1
+                ms = re.match(r"\s*Section\s+([A-Za-z0-9_']+)", line)
+                if ms:
+                    sections.append(ms.group(1))
+                me = re.match(r"\s*End\s+([A-Za-z0-9_']+)", line)
+                if me and sections and sections[-1] == me.group(1):
+                    sections.pop()
+                in_section = len(sections)
                 m = FORBIDDEN.search(line)
                 if m:
                     word = m.group(0)
-                    if word in ("Variable", "Variables", "Hypothesis", "Hypotheses") and in_section:
+                    if word in ("Variable", "Variables", "Hypothesis", "Hypotheses", "Context") and in_section:
                         continue  # section variables are discharged, not axioms
                     bad.append("%s:%d: %s" % (os.path.relpath(path, V), ln, word))
     proj = open(os.path.join(COQ, "_CoqProject")).read()
